@@ -1197,7 +1197,11 @@ func (p *Parser) parsePropertyName(in string) (propertyName PropertyName) {
 		p.next()
 	} else if p.tt == OpenBracketToken {
 		p.next()
+		// a computed key is an expression, also in a binding pattern of an arrow function
+		prevAssumeArrowFunc := p.assumeArrowFunc
+		p.assumeArrowFunc = false
 		propertyName.Computed = p.parseExpression(OpAssign)
+		p.assumeArrowFunc = prevAssumeArrowFunc
 		if !p.consume(in, CloseBracketToken) {
 			return
 		}
